@@ -8,6 +8,7 @@ import WinterProofs.Lemmas.C16Field
 import WinterProofs.Lemmas.C16Model
 import WinterProofs.Lemmas.C16Interp
 import WinterProofs.Lemmas.C16Prep
+import WinterProofs.Lemmas.C16Group
 
 namespace WinterProofs.C16
 open Model.Divisor WinterProofs.C16L Polynomial
@@ -649,5 +650,67 @@ example : ∃ d, fromTransition (fieldOps (ZMod 17) (fun _ => some 2)) 8 5 = .ok
     8 / 2 - 1 ≤ 8 - 5 ∧ 8 - 5 ≤ 8 - 1 :=
   transition_degree_bounds (ds := [⟨1, []⟩]) rfl (by decide)
     ((setNumTransitionExemptions_ok_iff _ _ _ _).mpr ⟨rfl, by decide, by decide, by decide⟩)
+
+-- ============================================================================================
+-- grouping: the cells enforced by the grouped divisors are the cells named by the assertions
+-- ============================================================================================
+
+/-- **`group_constraints`, end to end.**  For well-formed assertions valid for the trace length,
+    grouping succeeds, and a cell (column, step `i`) is enforced by the groups - some group lists the
+    column and its (shared) divisor vanishes at `g^i` - exactly when some assertion names that cell. -/
+theorem groupConstraints_cells {root : ℕ → Option F} {g : F} {n : ℕ} {as : List (Assertion F)} (hn : 0 < n)
+    (hg : IsPrimitiveRoot g n) (hroot : root (Nat.log2 n) = some g)
+    (hwf : ∀ a ∈ as, WF a) (hval : ∀ a ∈ as, a.validateTraceLength n = .ok ()) :
+    ∃ groups, groupConstraints (fieldOps F root) as n = .ok groups ∧
+      ∀ col i, i < n →
+        ((∃ grp ∈ groups, col ∈ grp.columns ∧ grp.divisor.evalAt (fieldOps F root) (g ^ i) = some 0) ↔
+          ∃ a ∈ as, a.column = col ∧ i ∈ a.stepList n) := by
+  have hdiv : ∀ a ∈ as, ∃ d, fromAssertion (fieldOps F root) a n = .ok d := by
+    intro a ha
+    obtain ⟨d, hd, _⟩ := assertion_divisor_zero_set hn hg hroot (hwf a ha) (hval a ha)
+    exact ⟨d, hd⟩
+  obtain ⟨groups, hgr, h1, h2, h3⟩ := foldl_groupStep_inv (fieldOps F root) n as hdiv [] []
+    ⟨by simp, by simp, by simp⟩
+  rw [List.nil_append] at h1 h2 h3
+  refine ⟨groups, by rw [groupConstraints_eq]; exact hgr, fun col i hi => ?_⟩
+  -- the divisor of a group vanishes at g^i iff i is a step of any assertion with the group's key
+  have hkey : ∀ grp ∈ groups, ∀ a ∈ as, a.stride = grp.stride → a.first = grp.first →
+      (grp.divisor.evalAt (fieldOps F root) (g ^ i) = some 0 ↔ i ∈ a.stepList n) := by
+    intro grp hgrp a ha e1 e2
+    obtain ⟨a0, ha0, k1, k2, hd0⟩ := h1 grp hgrp
+    obtain ⟨d, hd, _, _, _, hz⟩ := assertion_divisor_zero_set hn hg hroot (hwf a0 ha0) (hval a0 ha0)
+    rw [hd0] at hd
+    cases hd
+    rw [hz i hi, same_key_same_steps (hwf a0 ha0) (hwf a ha) (hval a0 ha0) (hval a ha)
+      (k1.trans e1.symm) (k2.trans e2.symm)]
+  constructor
+  · rintro ⟨grp, hgrp, hcol, hzero⟩
+    obtain ⟨a, ha, e1, e2, e3⟩ := (h2 grp hgrp col).mp hcol
+    exact ⟨a, ha, e3, (hkey grp hgrp a ha e1 e2).mp hzero⟩
+  · rintro ⟨a, ha, hcol, hstep⟩
+    obtain ⟨grp, hgrp, e1, e2⟩ := h3 a ha
+    exact ⟨grp, hgrp, (h2 grp hgrp col).mpr ⟨a, ha, e1.symm, e2.symm, hcol⟩,
+      (hkey grp hgrp a ha e1.symm e2.symm).mpr hstep⟩
+
+/-- the hypotheses are satisfiable: two assertions in a trace of length 8 over ZMod 17 -/
+example : ∃ groups, groupConstraints (fieldOps (ZMod 17) (fun _ => some 2))
+      [⟨0, 1, 4, [5]⟩, ⟨1, 1, 4, [3, 6]⟩] 8 = .ok groups ∧
+    ∀ col i, i < 8 →
+      ((∃ grp ∈ groups, col ∈ grp.columns ∧
+          grp.divisor.evalAt (fieldOps (ZMod 17) (fun _ => some 2)) ((2 : ZMod 17) ^ i) = some 0) ↔
+        ∃ a ∈ ([⟨0, 1, 4, [5]⟩, ⟨1, 1, 4, [3, 6]⟩] : List (Assertion (ZMod 17))), a.column = col ∧ i ∈ a.stepList 8) :=
+  groupConstraints_cells (by decide) two_primitive_zmod17 rfl
+    (by
+      intro a ha
+      simp only [List.mem_cons, List.not_mem_nil, or_false] at ha
+      rcases ha with rfl | rfl
+      · exact Or.inr ⟨⟨2, rfl⟩, by decide, by decide, Or.inl rfl⟩
+      · exact Or.inr ⟨⟨2, rfl⟩, by decide, by decide, Or.inr ⟨by decide, 1, rfl⟩⟩)
+    (by
+      intro a ha
+      simp only [List.mem_cons, List.not_mem_nil, or_false] at ha
+      rcases ha with rfl | rfl
+      · exact (validateTraceLength_accepts_iff _ _).mpr ⟨⟨3, rfl⟩, by decide⟩
+      · exact (validateTraceLength_accepts_iff _ _).mpr ⟨⟨3, rfl⟩, by decide⟩)
 
 end WinterProofs.C16
